@@ -135,6 +135,25 @@ def resolve_selector(e, env):
     return U(e), neg
 
 
+def foreign_plate_iteration(f, node, S, env):
+    """the enclosing loop iterates `<X>.plates` (possibly `[] if .. else <X>.plates`) where X is a screen re-built from a subset of S
+    (`S.subset..(..).to_screen()`): returns the text of X, else None"""
+    par = enclosing_map(f.node)
+    n = node
+    while n in par:
+        n = par[n]
+        if isinstance(n, ast.For):
+            it = inline(n.iter, env)
+            alts = [it.body, it.orelse] if isinstance(it, ast.IfExp) else [it]
+            for a in alts:
+                if isinstance(a, ast.Attribute) and a.attr == "plates":
+                    x = a.value
+                    t = U(x).replace(" ", "")
+                    if t != S and t.startswith(f"{S}.subset") and t.endswith(".to_screen()"):
+                        return U(x)
+    return None
+
+
 def plate_iteration(f, node, S, env):
     """if `node` sits in an iteration over the plates of screen S (for-loop or comprehension, possibly over a
     pre-filtered list): (plate variable, loop node or None, observed plates filtered out by the iterable?)"""
@@ -245,6 +264,14 @@ def r2_holdout(ctx, fq, plate_balanced):
                 elif plate_balanced:
                     pv, loop, filtered = plate_iteration(f, src, S, env)
                     if pv is None:
+                        other = foreign_plate_iteration(f, src, S, env)
+                        direct = U(tgt.slice) in [U(t) for n_ in walk_own(f.node) if isinstance(n_, ast.Assign) and n_.value is src for t in n_.targets] or tgt.slice is src
+                        if other is not None and direct:
+                            # recognised and wrong: positions inside another screen object are written into a vector over S's rows
+                            ctx.bad("R1", f"{f.site()}::row-space-of-the-drawn-indices",
+                                    f"the draw `{U(src)[:60]}` iterates the plates of `{other}`, a screen re-built from a subset of `{S}`: its row positions "
+                                    f"are not positions in `{S}`, yet they are written into `{V}` (one entry per row of `{S}`)")
+                            continue
                         raise AnalysisError(f"{f.site()}: the draw `{U(src)[:60]}` is not inside an iteration over `{S}.plates`")
                     lenv = {}
                     scope = loop if loop is not None else f.node
